@@ -250,7 +250,7 @@ func (c *connector) Deploy(ctx context.Context, src string) (deployer.Plugin, er
 	d := &Deployment{N: len(w.deps) + 1, Src: src, Probe: probe, w: w, By: simrt.CurrentName()}
 	w.deps = append(w.deps, d)
 	w.mu.Unlock()
-	w.Log(Event{Kind: EvDeployBegin, Src: src, Dep: d.N, Probe: probe, Data: map[string]any{"mode": c.cfg.Mode, "latency_ms": c.cfg.LatencyMS}})
+	w.Log(Event{Kind: EvDeployBegin, Src: src, Dep: d.N, Probe: probe, Data: map[string]any{"mode": c.cfg.Mode, "latency_ms": c.cfg.LatencyMS, "by": d.By}})
 	mode := c.cfg.Mode
 	var pf ProbeFault
 	if probe {
